@@ -26,8 +26,8 @@ COMPONENTS = {
     "stub": ["network", "clocks and timers", "application script", "server front-end (accept on first Initial)"],
 }
 PLAN = {
-    "quick": {"budget_s": 60, "max_runs": 1000000, "variants": ["faulty", "faulty", "rebind_storm", "fault_free"]},
-    "thorough": {"budget_s": 900, "max_runs": 100000000, "variants": ["faulty", "faulty", "rebind_storm", "fault_free"]},
+    "quick": {"budget_s": 60, "max_runs": 1000000, "variants": ["faulty", "faulty", "rebind_storm", "quiet_receiver", "fault_free"]},
+    "thorough": {"budget_s": 900, "max_runs": 100000000, "variants": ["faulty", "faulty", "rebind_storm", "quiet_receiver", "fault_free"]},
 }
 
 
@@ -176,6 +176,10 @@ PROFILES = {
     # many address changes in one connection: every new path gets its own PATH_CHALLENGE, responses may be late
     "rebind_storm": {"faults": ("drop", "dup", "delay", "rebind", "timer-late"), "max_rebinds": 10, "rebind_mean": 5.0, "rebind_burst": True,
                      "rebind_old_alive_p": 0.6, "strict_heal": True},
+    # one application only ever receives (and updates its keys): all its packets are acknowledgements
+    "quiet_receiver": {"faults": ("drop", "dup", "delay", "blackout", "timer-late"), "quiet_side_p": 1.0, "max_ops": 24, "drop_after_ku_p": 0.5, "ku_quiet_p": 0.5,
+                       "op_weights": {"write": 10, "fin": 3, "ping": 1.0, "key_update": 6.0, "reset": 0.5, "stop": 0.5,
+                                      "change_cid": 0.5}},
     "fault_free": {"fault_free": True},
 }
 
